@@ -23,7 +23,8 @@ func TestMain(m *testing.M) {
 		"run on a scripted handler (per call: 0..2 outputs with/without correlation id; nil / listed / unlisted / pkg-errors-wrapped listed error; panic with string/error/struct/nil) and a generated message "+
 		"(correlation id, pre-existing deadline, pre-existing delay metadata). Oracle = differential against a chain of obviously-correct reference middlewares on the same script. "+
 		"Separate sequence tests: DelayOnError over k consecutive failures, Throttle start times (incl. messages with a done context). "+
-		"Non-trivial: the chain has >=2 elements or the handler does not plainly succeed. Distinct by canonical case encoding.")
+		"Non-trivial: the chain has >=2 elements or the handler does not plainly succeed. Distinct by canonical case encoding."+
+		" Handler errors include application error types with Cause() only (listed and unlisted cause); 1 of 6 messages arrives with an ended context.")
 	lib.Extra("assumptions", []string{
 		"Timeout durations are minutes to hours so that no deadline expires during a case; the message context is live unless stated",
 		"%w-wrapped errors under IgnoreErrors are not demanded (it documents errors.Cause); log output and stack text are not compared",
